@@ -50,6 +50,57 @@ def mutate(val, depth=0):
         val.add('MUTATED')
 
 
+class LineScheduler(object):
+    """Replays a schedule at line granularity with sys.settrace: every 'line' event inside the cache functions is a
+    step that must be granted by the schedule (a list of thread names).  A thread that has finished is skipped."""
+
+    TARGETS = {('numdb.py', 'get'), ('vat.py', '_get_cc_module'), ('iban.py', '_get_cc_module'), ('vatin.py', '_get_cc_module'),
+               ('util.py', 'get_cc_module')}
+
+    def __init__(self, schedule):
+        self.schedule = list(schedule)
+        self.pos = 0
+        self.cond = threading.Condition()
+        self.done = set()
+        self.steps = 0
+        self.timeouts = 0
+
+    def local(self, frame, event, arg):
+        if event == 'line':
+            self.step()
+        return self.local
+
+    def tracer(self, frame, event, arg):
+        co = frame.f_code
+        if event == 'call' and (co.co_filename.rsplit('/', 1)[-1], co.co_name) in self.TARGETS and '/stdnum/' in co.co_filename:
+            return self.local
+        return None
+
+    def step(self):
+        me = threading.current_thread().name
+        with self.cond:
+            waited = 0.0
+            while True:
+                while self.pos < len(self.schedule) and self.schedule[self.pos] in self.done:
+                    self.pos += 1
+                if self.pos >= len(self.schedule) or self.schedule[self.pos] == me:
+                    break
+                self.cond.wait(0.02)
+                waited += 0.02
+                if waited > 2.0:
+                    self.timeouts += 1
+                    break
+            self.steps += 1
+            if self.pos < len(self.schedule) and self.schedule[self.pos] == me:
+                self.pos += 1
+            self.cond.notify_all()
+
+    def finished(self):
+        with self.cond:
+            self.done.add(threading.current_thread().name)
+            self.cond.notify_all()
+
+
 def main():
     job = json.load(sys.stdin)
     out = {'results': [], 'hooklog': [], 'timeouts': 0}
@@ -70,13 +121,20 @@ def main():
         res = {}
         sys.setswitchinterval(1e-6)
 
+        ls = LineScheduler(job['lines']) if job.get('lines') else None
+
         def work(name):
             try:
+                if ls:
+                    sys.settrace(ls.tracer)
                 barrier.wait()
                 for i, c in enumerate(job['calls'], 1):
                     val, r = do_call(c)
                     res[(name, i)] = (c, r)
             finally:
+                if ls:
+                    sys.settrace(None)
+                    ls.finished()
                 if vh:
                     vh.thread_done()
         ths = [threading.Thread(target=work, name=nm, args=(nm,)) for nm in names]
@@ -89,6 +147,9 @@ def main():
     if vh:
         out['hooklog'] = list(vh.log)
         out['timeouts'] = vh.timeouts
+    if job.get('lines'):
+        out['line_steps'] = ls.steps
+        out['timeouts'] = out.get('timeouts', 0) + ls.timeouts
     json.dump(out, sys.stdout)
 
 
